@@ -36,6 +36,12 @@ checks={
  "C04":dict(engine="E4",cat="fault_enumeration",tech="fault enumeration: every truncation point of every corpus encoding and every hostile overwrite window, decoded by the real decoders; allocation measured per decode; worker processes restarted after a fatal error and the fatal input reported",
    text="corpus of ~4600 distinct valid encodings (values, 37 pack types with every single-slot deviation, steps, transaction/service records, UDP packs per family); every strict prefix (777k) must end in a recovered panic; every primitive read on every short buffer; all unknown value/step/pack tags; hostile 1/2/4/5-byte overwrites at every offset (quick: first 48 offsets of three encodings per kind) with the bytes allocated during the decode bounded by 64*len+1MiB, in single-threaded workers that are restarted after a fatal out-of-memory and report the killing input",
    note="16-bit counts may pre-allocate a few hundred KiB (inside the 1 MiB slack); 2^31-scale lengths only reach ReadBytes, which checks before allocating",ref="DESIGN.md 4 C04"),
+ "C05":dict(engine="E3",cat="exploration",tech=E3T+"; bytes captured behind the real client on an in-memory network",
+   text="every object of the eight pinned pack types with at most 1 (2) reflected slots deviating from two bases (both header forms, every decimal class of the project code, nil/empty optional sections, the counter pack's db-pool/netstat/websocket/meter sections) is encoded and compared byte for byte with an independent reference encoder, then sent through the real OneWayTcpClient; the bytes the fake peer receives must equal the reference frame; plus all combinations of 5 default licences x 5 per-send licences x 12 project codes",
+   note="reference encoders written from DESIGN.md Appendix C; no protocol document offline",ref="DESIGN.md 4 C05"),
+ "C06":dict(engine="E1",cat="model_checking",tech=MC,
+   text="20 closed scenarios (direct mode with 1-3 senders x 1-3 packs, queue mode with the real background goroutine for queue sizes 1/2/1000, SendAndClear), healthy and with network faults (dial failure, reset after a byte offset of a write - every offset for the single-sender scenarios, a boundary set otherwise - and deadline errors): every execution within preemption bound 2 (queue mode 1) and fault bound 1 (thorough 3/2) is run on the real client; per connection the byte log must parse into whole reference frames of exactly one send each, no duplicates, real-time order, nil-returning direct sends delivered, nothing lost without faults",
+   note="in-memory network; virtual time; search sharded over 16 processes at deviation depth 2 (exact)",ref="DESIGN.md 4 C06"),
  "C07":dict(engine="E3",cat="exploration",tech=E3T,
    text="all 256 type bytes probed (18 types); versions = every literal compared with Ver in the udp sources +-1 plus family borders (~60); for every (type, version) every field assignment with at most 1 (2) deviating slots is written and read back at the same version (consumed exactly, byte-identical re-encode, judged after Process() where Process completes decoding); every acquire/fill/release history up to depth 4 (6) over two handles returns clean packs and the released object itself is inspected; every connection string of up to 3 (4) key=value tokens over four separators loses its password value after Process() at Go/PHP versions and is unchanged at the others",
    note="version list is regenerated from /repo sources at run time; password key matching is the literal key 'password'",ref="DESIGN.md 4 C07"),
